@@ -370,6 +370,7 @@ Theorem update_policies_keeps_nodup l olds news l' b :
 Proof.
   intros Hnd H. unfold update_policies in H.
   destruct (negb (Nat.eqb (length olds) (length news))); [inversion H; subst; assumption|].
+  destruct (negb (nodupb rule_eqb olds)); [inversion H; subst; assumption|].
   destruct (indices_of l olds) as [idxs|]; [|inversion H; subst; assumption].
   destruct (batch_addable l [] news) eqn:Eb; simpl in H; [|inversion H; subst; assumption].
   inversion H; subst. rewrite batch_addable_spec in Eb.
@@ -385,6 +386,7 @@ Theorem update_policies_all_or_nothing l olds news l' :
 Proof.
   unfold update_policies. intro H.
   destruct (negb (Nat.eqb (length olds) (length news))); [inversion H; reflexivity|].
+  destruct (negb (nodupb rule_eqb olds)); [inversion H; reflexivity|].
   destruct (indices_of l olds) as [idxs|]; [|inversion H; reflexivity].
   destruct (batch_addable l [] news); simpl in H; inversion H. reflexivity.
 Qed.
